@@ -116,6 +116,7 @@ def native_tu():
 #include <smooth/optim.hpp>
 #include <smooth/so3.hpp>
 // problem 0: Rosenbrock-like residuals in R^2, problem 1: SO3 alignment, problem 2: linear least squares R^3 (rank deficient)
+// problem 5: linear least squares with 2 residuals in R^4 (wide Jacobian)
 // problem 4: full-rank linear least squares in SMALL UNITS (residual scaled by 2^-20): minimiser A^-1 b; xout receives the final iterate
 extern "C" int min_native(int problem, int strategy, unsigned max_iter, const double * x0, double * costs, int ncosts, int * status, unsigned * iters, double * xout)
 {
@@ -144,6 +145,13 @@ extern "C" int min_native(int problem, int strategy, unsigned max_iter, const do
     auto cb = [&](const Eigen::Vector3d & v) { rec.push_back(f(v).squaredNorm()); };
     res = minimize<diff::Type::Numerical>(f, wrt(x), cb, opts);
     xout[0] = x(0); xout[1] = x(1); xout[2] = x(2);
+  } else if (problem == 5) {
+    // fewer residuals than variables (wide Jacobian), column norms far from 1
+    Eigen::Vector4d x(x0[0], x0[1], x0[2], x0[3]);
+    Eigen::Matrix<double, 2, 4> A; A << 3, -4, 5, 1, 4, 3, -1, 5;
+    auto f  = [&](const Eigen::Vector4d & v) -> Eigen::Vector2d { return A * v - Eigen::Vector2d(1, -2); };
+    auto cb = [&](const Eigen::Vector4d & v) { rec.push_back(f(v).squaredNorm()); };
+    res = minimize<diff::Type::Numerical>(f, wrt(x), cb, opts);
   } else if (problem == 3) {
     // poorly scaled polynomial residual: the predicted reduction is below the rounding of 1 - (.)^2
     double x = x0[0];
@@ -166,7 +174,7 @@ extern "C" int min_native(int problem, int strategy, unsigned max_iter, const do
 
 
 def run_standin(tier="quick", seed=0):
-    """BOUNDED stand-in and witness search: the real minimize on three problem families; callback costs must be non-increasing,
+    """BOUNDED stand-in and witness search: the real minimize on six problem families; callback costs must be non-increasing,
     iterations <= max_iter, MaxIters only with iter == max_iter."""
     import ctypes
     import random
@@ -183,13 +191,13 @@ def run_standin(tier="quick", seed=0):
     f.restype = ctypes.c_int
     rng = random.Random(seed)
     n = 48 if tier == "quick" else 480
-    fams = {0: "rosenbrock", 1: "so3-alignment", 2: "rank-deficient-linear", 3: "illscaled-polynomial", 4: "small-units-linear"}
+    fams = {0: "rosenbrock", 1: "so3-alignment", 2: "rank-deficient-linear", 3: "illscaled-polynomial", 4: "small-units-linear", 5: "wide-linear"}
     XSTAR4 = [1 / 3, 1 / 3, 2 / 3]      # A^-1 b of problem 4 (A = [[2,1,0],[1,3,1],[0,1,4]], b = (1,2,3))
     bad = {}
     runs = 0
 
     def run(prob, strat, mi, x0v):
-        x0 = (ctypes.c_double * 3)(*x0v)
+        x0 = (ctypes.c_double * 4)(*(list(x0v) + [0.0] * (4 - len(x0v))))
         costs = (ctypes.c_double * 256)()
         st = ctypes.c_int()
         it = ctypes.c_uint()
@@ -197,10 +205,15 @@ def run_standin(tier="quick", seed=0):
         k = f(prob, strat, ctypes.c_uint(mi), x0, costs, 256, ctypes.byref(st), ctypes.byref(it), xo)
         run.xout = list(xo)
         return [costs[j] for j in range(min(k, 256))], st.value, it.value, k
-    for i in range(n):
-        prob, strat = i % 5, (i // 5) % 2
-        mi = rng.choice([1, 2, 5, 20, 100])
-        x0v = [rng.uniform(-2, 2) for _ in range(3)] if prob != 3 else [0.0, 0.0, 0.0]
+    # fixed probes first (exact dyadic start points), so that the recorded known finding is observed on every run
+    FIXED = [(4, 0, 100, [0.625, 0.625, 0.125, 0.0]), (4, 1, 100, [0.625, 0.625, 0.125, 0.0]), (5, 0, 20, [0.0, 0.0, 0.0, 0.0]), (5, 1, 20, [0.0, 0.0, 0.0, 0.0])]
+    for i in range(-len(FIXED), n):
+        if i < 0:
+            prob, strat, mi, x0v = FIXED[i + len(FIXED)]
+        else:
+            prob, strat = i % 6, (i // 6) % 2
+            mi = rng.choice([1, 2, 5, 20, 100])
+            x0v = [rng.uniform(-2, 2) for _ in range(4)] if prob != 3 else [0.0, 0.0, 0.0, 0.0]
         cs, st, it, k = run(prob, strat, mi, x0v)
         runs += 1
         inc = [(j, cs[j], cs[j + 1]) for j in range(len(cs) - 1) if cs[j + 1] > cs[j] * (1 + 1e-9) + 1e-300]
@@ -219,7 +232,7 @@ def run_standin(tier="quick", seed=0):
         famname = fams[prob] if prob != 4 else "%s/%s" % (fams[prob], "disney" if strat == 1 else "ceres")
         if why and famname not in bad:
             bad[famname] = dict(problem=famname, strategy=strat, max_iter=mi, x0=x0v, costs=cs[:12], status=st, iter=it, why=why)
-    res.standins.append(dict(function="smooth::minimize", points=runs, grid="5 problem families x 2 strategies x max_iter in {1,2,5,20,100}", label="bounded"))
+    res.standins.append(dict(function="smooth::minimize", points=runs, grid="6 problem families x 2 strategies x max_iter in {1,2,5,20,100}", label="bounded"))
     for fam in [v for k_, v in fams.items() if k_ != 4] + ["small-units-linear/ceres", "small-units-linear/disney"]:
         oid = "%s/%s" % (tag, fam)
         if fam in bad:
